@@ -128,7 +128,18 @@ TReturn == IsEv("Return") /\ Return(ObsOf(Ev, TRUE)) /\ Consume
            /\ Note(Flag("C02_ReturnInBox", Ev.inbox /\ Ev.fixed))
 TPropagate == IsEv("Raised") /\ Propagate(Ev.same) /\ Consume /\ Note({})
 
-Main == \/ TStart \/ TRestart \/ TRaise \/ TRaiseLS \/ TEvalF0 \/ TCallStop \/ TSkipStop \/ TEarly
+(* An exception nobody injected reaches the caller (e.g. the differentiation routine    *)
+(* rejecting an iterate that left the box).                                            *)
+TCrash == /\ IsEv("Raised") /\ pc \notin {"Raised", "Idle", "Done", "Lost"} /\ ~Ev.injected
+          /\ out' = [kind |-> "crashed"] /\ pc' = "Done"
+          /\ UNCHANGED <<cfg, chain, nit, nfev, njev, nit0, n0, f0r, x, fx, fAt, gAt, pg, memo,
+                         mem, matsOf, ls, task, success, calls, lastCb, snap, npts, gen, uphill, fault>>
+          /\ Consume /\ Note({IF cfg.fd THEN "C16_NoRaise" ELSE "Conf_UnexpectedRaise"})
+
+TCrashLS == /\ IsEv("LSEnd") /\ Ev.ret = "exc" /\ fault = "none"
+            /\ UNCHANGED vars /\ Consume /\ Note({})
+
+Main == \/ TCrash \/ TCrashLS \/ TStart \/ TRestart \/ TRaise \/ TRaiseLS \/ TEvalF0 \/ TCallStop \/ TSkipStop \/ TEarly
         \/ TNoEarly \/ TStencil \/ TEvalG0 \/ TScaler \/ TNoScaler \/ TUpd0 \/ TNoUpd0
         \/ TMem0First \/ TMem0Restart \/ TGuardEnter \/ TGuardExit \/ TLSBegin \/ TTrialF \/ TTrialG
         \/ TLSNone \/ TLSStep \/ TAccFEval \/ TAccFHit \/ TAccFSkip \/ TAccGEval \/ TAccGHit
